@@ -5,7 +5,8 @@
    Coherence of the cached listing with the hash tables over histories is judged by the extracted decoder
    (Spec/Decode.v: cache_chain, crecs_agree) and by comparing listings served from the cache with the reference model. *)
 From Coq Require Import ZArith List Bool Lia.
-From ADF Require Import CPrelude Generated.Leaf.
+From ADF Require Import CPrelude Generated.Leaf Proofs.CacheCodecP.
+Import ListNotations.
 Local Open Scope Z_scope.
 
 Definition rec_len (nl cl : Z) : Z :=
@@ -31,5 +32,54 @@ Theorem C07_area_bound : forall off nl cl, 0 <= off -> 1 <= nl <= 30 -> 0 <= cl 
   off + rec_len nl cl <= 488 -> forall i, 0 <= i < rec_len nl cl -> 0 <= off + i < 488.
 Proof. intros. lia. Qed.
 
+(* ---- the record codec (adfPutCacheEntry / adfGetCacheEntry, REGENERATED from adf_cache.c, buffer-writing translation) ---- *)
+Definition cache_rec_len (nl cl : Z) : Z := if Z.even (25 + nl + cl) then 25 + nl + cl else 25 + nl + cl + 1.
+
+(* a record written at an even offset p of a 488-byte record area with room for it is read back field by field; the
+   reader's next offset is p + the length the writer returned; whatever the reader's struct held before *)
+Theorem C07_codec_roundtrip : forall (recs : list Z) (p hdr size prot days mins ticks typ : Z) (name comm : list Z),
+  length recs = 488%nat -> 0 <= p -> Z.even p = true ->
+  p + cache_rec_len (Z.of_nat (length name)) (Z.of_nat (length comm)) <= 488 ->
+  1 <= Z.of_nat (length name) <= 30 -> Z.of_nat (length comm) <= 79 ->
+  0 <= hdr < 2 ^ 32 -> 0 <= size < 2 ^ 32 -> 0 <= prot < 2 ^ 32 ->
+  0 <= days < 65536 -> 0 <= mins < 65536 -> 0 <= ticks < 65536 -> -128 <= typ < 128 ->
+  forall (e_cLen : Z) (e_comm : list Z) (e_days e_header e_mins e_nLen : Z) (e_name : list Z) (e_protect e_size e_ticks e_type : Z),
+  length e_name = 31%nat -> length e_comm = 80%nat ->
+  let put := c_adfPutCacheEntry recs p (Z.of_nat (length comm)) comm days hdr mins (Z.of_nat (length name)) name prot size ticks typ in
+  exists name' comm',
+    c_adfGetCacheEntry (snd put) p e_cLen e_comm e_days e_header e_mins e_nLen e_name e_protect e_size e_ticks e_type
+      = (0, p + cache_rec_len (Z.of_nat (length name)) (Z.of_nat (length comm)), hdr, size, prot, days, mins, ticks, typ,
+         Z.of_nat (length name), name', Z.of_nat (length comm), comm') /\
+    firstn (length name) name' = name /\ firstn (length comm) comm' = comm.
+Proof. exact codec_roundtrip. Qed.
+
+(* the writer returns that length and changes no byte outside [p, p + length) *)
+Theorem C07_codec_frame : forall (recs : list Z) (p hdr size prot days mins ticks typ : Z) (name comm : list Z),
+  length recs = 488%nat -> 0 <= p -> p + cache_rec_len (Z.of_nat (length name)) (Z.of_nat (length comm)) <= 488 ->
+  1 <= Z.of_nat (length name) <= 30 ->
+  let put := c_adfPutCacheEntry recs p (Z.of_nat (length comm)) comm days hdr mins (Z.of_nat (length name)) name prot size ticks typ in
+  fst put = cache_rec_len (Z.of_nat (length name)) (Z.of_nat (length comm)) /\
+  forall j, (j < p \/ p + cache_rec_len (Z.of_nat (length name)) (Z.of_nat (length comm)) <= j) -> nthZ (snd put) j = nthZ recs j.
+Proof. intros. split; [apply put_fst | apply put_frame]; assumption. Qed.
+
+(* the reader accepts a record only if it lies inside the record area, for ANY block content *)
+Theorem C07_reader_stays_inside : forall B p e_cLen e_comm e_days e_header e_mins e_nLen e_name e_protect e_size e_ticks e_type
+                                         rc p' h s pr d m t ty nl nm cl cm,
+  c_adfGetCacheEntry B p e_cLen e_comm e_days e_header e_mins e_nLen e_name e_protect e_size e_ticks e_type
+    = (rc, p', h, s, pr, d, m, t, ty, nl, nm, cl, cm) ->
+  rc = 0 -> 0 <= p <= 462 /\ 1 <= nl <= 30 /\ cl <= 79 /\ p + 25 + nl + cl <= 488 /\ p' <= 489.
+Proof. exact get_ok_inside. Qed.
+
+Example C07_codec_example :
+  let recs := repeat 170 488 in
+  let put := c_adfPutCacheEntry recs 40 2 [104; 105] 7000 883 60 3 [97; 98; 99] 15 4096 49 (-3) in
+  fst put = 30 /\
+  c_adfGetCacheEntry (snd put) 40 0 (repeat 0 80) 0 0 0 0 (repeat 0 31) 0 0 0 0
+    = (0, 70, 883, 4096, 15, 7000, 60, 49, -3, 3, [97; 98; 99] ++ repeat 0 28, 2, [104; 105] ++ repeat 0 78).
+Proof. vm_compute. split; reflexivity. Qed.
+
 Print Assumptions C07_record_length.
+Print Assumptions C07_codec_roundtrip.
+Print Assumptions C07_codec_frame.
+Print Assumptions C07_reader_stays_inside.
 Print Assumptions C07_area_bound.
